@@ -143,7 +143,118 @@ def correspondence(ctx):
             ans = ','.join(f"{k}={col.get(k)}" for k in 'IXYZ')
             s_repr.add(f'gui.repr {cls} qubits {pic} -', ans,
                        {'code_name': name, 'size': size, 'rotated': rot, 'what': 'qubit description'}, tag=cls)
-    return [s_menu.run(), s_repr.run()]
+    return [s_menu.run(), s_repr.run()] + code_data_streams(ctx, c)
+
+
+# ------------------------------------------------------------------ /code-data payload vs Model/GuiRepr.lean
+
+def _float_tag(v, in_location):
+    """canonical text of a float of the payload.  Floats the source computes with numpy / inexact float arithmetic are
+    recognised by EXACT equality with the same Python operation and printed as the tagged constant the model carries
+    (never approximated); every other float is a literal of gui-config.json / the source, printed as Python prints it."""
+    import numpy as np
+    if in_location:
+        k = round(v / 1.4142)
+        if k * 1.4142 == v:
+            return f'{k}*1.4142'
+        k = round(v - 0.9)
+        if k + 0.9 == v:
+            return f'{k}+0.9'
+        k = round(v + 0.9)
+        if k - 0.9 == v:
+            return f'{k}-0.9'
+    else:
+        if v == np.pi / 4:
+            return 'pi/4'
+        if v == np.sqrt(2) / 2:
+            return 'sqrt(2)/2'
+        if v == -np.sqrt(2) / 2:
+            return '-sqrt(2)/2'
+    t = repr(float(v))
+    if 'e' in t or 'n' in t:
+        return 'FLOAT:' + t
+    return t
+
+
+def _jstr(s_):
+    return '"' + s_.replace('\\', '\\\\').replace('"', '\\"') + '"'
+
+
+def canon_json(o, in_location=False):
+    """canonical text of a JSON value: no blanks, keys sorted, floats through _float_tag"""
+    if o is None:
+        return 'null'
+    if isinstance(o, bool):
+        return 'true' if o else 'false'
+    if isinstance(o, int):
+        return str(o)
+    if isinstance(o, float):
+        return _float_tag(o, in_location)
+    if isinstance(o, str):
+        return _jstr(o)
+    if isinstance(o, list):
+        return '[' + ','.join(canon_json(x, in_location) for x in o) + ']'
+    if isinstance(o, dict):
+        return '{' + ','.join(_jstr(k) + ':' + canon_json(o[k], in_location or k == 'location') for k in sorted(o)) + '}'
+    return 'UNSUPPORTED:' + type(o).__name__
+
+
+def stack_str(m):
+    """Driver.showStack"""
+    if not m:
+        return '_'
+    return '|'.join((''.join(str(int(x)) for x in row) if row else '-') for row in m)
+
+
+def narrow(a, b):
+    la, lb = a.split('\t'), b.split('\t')
+    for i, (x, y) in enumerate(zip(la, lb)):
+        if x != y:
+            return f'[element {i} of {len(la)}] {x}', f'[element {i} of {len(lb)}] {y}'
+    return f'[{len(la)} elements] ' + a[:300], f'[{len(lb)} elements] ' + b[:300]
+
+
+def code_data_streams(ctx, c):
+    """EVERY field of every qubit / stabilizer description of /code-data, in the order sent, and H / logical_x /
+    logical_z, against the model's describeAll (Model/GuiRepr.lean + the hand-written lattice models), for every menu
+    class x sizes x deformation x both pictures"""
+    def err_post(op, out):
+        return 'ERR' if out.startswith('ERR') else out
+    s_desc = Stream('code-data-descriptions-vs-model', post=err_post)
+    s_mat = Stream('code-data-H-logicals-order-vs-model', post=err_post)
+    for name, cls, size, dn, rot in menu_requests(ctx):
+        data, status = post(c, '/code-data', payload(name, size, dn, rot))
+        pre = f"guidata {cls} {'x'.join(map(str, size))} {esc(dn)} {int(rot)}"
+        inp = {'code_name': name, 'class': cls, 'size': list(size), 'deformation': dn, 'rotated': rot}
+        tag = f"{cls}{'/rotated' if rot else '/kitaev'}"
+        if data is None:
+            s_desc.add(pre + ' qubits', 'ERR', dict(inp, what=f'HTTP {status}'), tag=tag)
+            continue
+        ans = guarded(lambda: f"{len(data['qubits'])} {len(data['stabilizers'])}")
+        s_mat.add(pre + ' counts', ans, dict(inp, what='number of descriptions'), tag=tag)
+        for part, key in (('H', 'H'), ('logx', 'logical_x'), ('logz', 'logical_z')):
+            ans = guarded(lambda: stack_str(data[key]))
+            s_mat.add(f'{pre} {part}', ans, dict(inp, what=key), tag=tag)
+        for part, key in (('qubits', 'qubits'), ('stabs', 'stabilizers')):
+            ans = guarded(lambda: '\t'.join(canon_json(d) for d in data[key]) or '_')
+            s_desc.add(f'{pre} {part}', ans, dict(inp, what=key + ' descriptions (every field, index order)'), tag=tag)
+    for s_ in (s_desc, s_mat):
+        s_.run()
+        narrow_mismatches(s_)
+    return [s_desc, s_mat]
+
+
+def narrow_mismatches(stream):
+    if not stream.mismatches:
+        return
+    from harness.core import driver
+    by_op = {op: a for op, a in zip(stream.ops, stream.impl)}
+    for m in stream.mismatches:
+        a = by_op.get(m['op'])
+        if a is None or '\t' not in a:
+            continue
+        b = driver([m['op']])[0]
+        m['implementation'], m['model'] = (t[:2000] for t in narrow(a, b))
 
 
 # ------------------------------------------------------------------ oracle
